@@ -33,6 +33,7 @@ type hkState struct {
 	ttl      time.Duration
 	fnHit    bool
 	root     *fakeInner
+	innerBefore int // inner-client events before the call under test (path derivation)
 	cancels  int
 }
 
@@ -335,16 +336,28 @@ func typeName(v any) string {
 
 // hkCall performs `method` on cur (a rueidis.Client or rueidis.DedicatedClient) and returns
 // ("", false) if cur's static interface does not have the method, else the ret class.
-func hkCall(s *hkState, cur any, m string) (ret string, has bool) {
+func hkCall(s *hkState, cur any, m string, argc int) (ret string, has bool) {
 	tok := new(int)
 	s.ctxTok = tok
 	ctx := context.WithValue(context.Background(), hkCtxKey{}, tok)
 	b := cmds.NewBuilder(cmds.NoSlot)
 	s.cmd = b.Get().Key("k").Build()
-	s.multi = []rueidis.Completed{b.Get().Key("a").Build(), b.Get().Key("b").Build(), b.Ping().Build()}
+	s.multi = nil
+	s.mcache = nil
+	for i := 0; i < argc; i++ {
+		s.multi = append(s.multi, b.Get().Key(fmt.Sprintf("k%d", i)).Build())
+	}
 	s.cache = b.Get().Key("c").Cache()
 	s.ttl = 1234 * time.Millisecond
-	s.mcache = []rueidis.CacheableTTL{rueidis.CT(b.Get().Key("x").Cache(), time.Second), rueidis.CT(b.Get().Key("y").Cache(), 2*time.Second)}
+	for i := 0; i < argc; i++ {
+		s.mcache = append(s.mcache, rueidis.CT(b.Get().Key(fmt.Sprintf("c%d", i)).Cache(), time.Duration(i+1)*time.Second))
+	}
+	s.innerBefore = 0
+	for _, e := range s.evs {
+		if strings.HasPrefix(e, "inner:") {
+			s.innerBefore++
+		}
+	}
 	fn := func(rueidis.PubSubMessage) { s.fnHit = true }
 	s.lastHook, s.lastIn = "", ""
 	hooksBefore := 0
@@ -498,16 +511,29 @@ func hkFollow(s *hkState, cur any, path []string, then func(cur any)) (ok bool) 
 
 func hookOp(c *Ctx, line string) {
 	w := strings.Fields(line)
-	if len(w) < 3 || (w[0] != "call" && w[0] != "!call") {
+	// hook <method> <argc> <path> <fwd>   |   !hook <method> <argc> <path>
+	// (older spelling: call <path> <method> <fwd> | !call <path> <method>, three commands)
+	var m, pw string
+	argc, fwd, oracle := 3, false, false
+	switch {
+	case len(w) == 5 && w[0] == "hook":
+		m, pw, fwd = w[1], w[3], w[4] == "1"
+		fmt.Sscan(w[2], &argc)
+	case len(w) == 4 && w[0] == "!hook":
+		m, pw, oracle = w[1], w[3], true
+		fmt.Sscan(w[2], &argc)
+	case len(w) >= 3 && w[0] == "call":
+		pw, m, fwd = w[1], w[2], len(w) > 3 && w[3] == "1"
+	case len(w) >= 3 && w[0] == "!call":
+		pw, m, oracle = w[1], w[2], true
+	default:
 		c.Emit(line, "bad-op", false)
 		return
 	}
 	var path []string
-	if w[1] != "-" {
-		path = strings.Split(w[1], ",")
+	if pw != "-" {
+		path = strings.Split(pw, ",")
 	}
-	m := w[2]
-	fwd := len(w) > 3 && w[3] == "1"
 	ans := func() (ans string) {
 		s := &hkState{fwd: fwd}
 		defer func() {
@@ -519,14 +545,14 @@ func hookOp(c *Ctx, line string) {
 		root := rueidishook.WithHook(s.root, &countHook{s: s})
 		var ret string
 		var has bool
-		ok := hkFollow(s, root, path, func(cur any) { ret, has = hkCall(s, cur, m) })
+		ok := hkFollow(s, root, path, func(cur any) { ret, has = hkCall(s, cur, m, argc) })
 		if !ok {
 			return "nopath"
 		}
 		if !has {
 			return "nomethod"
 		}
-		if w[0] == "!call" {
+		if oracle {
 			// oracle vocabulary: how often each hook method ran, whose result came back
 			cnt := map[string]int{}
 			for _, e := range s.evs {
@@ -547,7 +573,16 @@ func hookOp(c *Ctx, line string) {
 			if len(parts) == 0 {
 				parts = []string{"-"}
 			}
-			return "hooks=" + strings.Join(parts, ",") + " ret=" + ret
+			inner := -s.innerBefore
+			for _, e := range s.evs {
+				if strings.HasPrefix(e, "inner:") {
+					inner++
+				}
+			}
+			if w[0] == "!call" {
+				return "hooks=" + strings.Join(parts, ",") + " ret=" + ret
+			}
+			return fmt.Sprintf("hooks=%s inner=%d ret=%s", strings.Join(parts, ","), inner, ret)
 		}
 		return "log=" + logStr(s.evs) + " ret=" + ret
 	}()
@@ -557,6 +592,9 @@ func hookOp(c *Ctx, line string) {
 	}
 	c.Hit(w[0] + ":" + key)
 	c.Emit(line, ans, len(path) > 0 && hkEntry[m] && ans != "nopath" && ans != "nomethod")
+	if w[0] == "!hook" && hkEntry[m] && ans != "nopath" && ans != "nomethod" && ans != "hooks="+m+":1 inner=0 ret=hook" {
+		c.Fail("hook:misrouted:"+m, line, fmt.Sprintf("%s with %d command(s) on the client reached by path %q: %s; the property demands hooks=%s:1 inner=0 ret=hook (the same-named hook method exactly once with the caller's arguments, nothing else, its result returned)", m, argc, pw, ans, m))
+	}
 }
 
 func logStr(evs []string) string {
@@ -586,12 +624,19 @@ func runHook(c *Ctx) {
 		}
 		return strings.Join(p, ",")
 	}
+	multiM := map[string]bool{"DoMulti": true, "DoMultiCache": true, "DoMultiStream": true}
 	for _, p := range paths {
 		for _, m := range hkMethods {
-			hookOp(c, fmt.Sprintf("call %s %s 0", pstr(p), m))
-			hookOp(c, fmt.Sprintf("call %s %s 1", pstr(p), m))
-			if hkEntry[m] {
-				hookOp(c, fmt.Sprintf("!call %s %s", pstr(p), m))
+			argcs := []int{1}
+			if multiM[m] {
+				argcs = []int{0, 1, 2, 3, 17}
+			}
+			for _, n := range argcs {
+				hookOp(c, fmt.Sprintf("hook %s %d %s 0", m, n, pstr(p)))
+				hookOp(c, fmt.Sprintf("hook %s %d %s 1", m, n, pstr(p)))
+				if hkEntry[m] {
+					hookOp(c, fmt.Sprintf("!hook %s %d %s", m, n, pstr(p)))
+				}
 			}
 		}
 	}
@@ -611,16 +656,20 @@ func runHook(c *Ctx) {
 			p = append(p, steps[1+c.Rng.IntN(2)])
 		}
 		m := hkMethods[c.Rng.IntN(len(hkMethods))]
-		hookOp(c, fmt.Sprintf("call %s %s %d", pstr(p), m, c.Rng.IntN(2)))
+		n := c.Rng.IntN(5)
+		if c.Rng.IntN(6) == 0 {
+			n = 1 + c.Rng.IntN(40)
+		}
+		hookOp(c, fmt.Sprintf("hook %s %d %s %d", m, n, pstr(p), c.Rng.IntN(2)))
 		if hkEntry[m] {
-			hookOp(c, fmt.Sprintf("!call %s %s", pstr(p), m))
+			hookOp(c, fmt.Sprintf("!hook %s %d %s", m, n, pstr(p)))
 		}
 	}
 }
 
 func init() {
 	suites["hook"] = suite{
-		rule: "every derivation path over {nodes,dedicate,dedicated} up to length 3 (exhaustive) and random paths up to length 10, times every method of rueidis.Client/DedicatedClient, with a non-forwarding and a forwarding counting hook on a mock inner client; non-trivial = entry point called on a derived (non-root) client, distinct op",
+		rule: "every derivation path over {nodes,dedicate,dedicated} up to length 3 (exhaustive) and random paths up to length 10, times every method of rueidis.Client/DedicatedClient (DoMulti/DoMultiCache/DoMultiStream with 0, 1, 2, 3 and 17 commands), with a non-forwarding and a forwarding counting hook on a mock inner client; non-trivial = entry point called on a derived (non-root) client, distinct op",
 		run:  runHook,
 		replay: func(c *Ctx, lines []string) {
 			for _, l := range lines {
